@@ -60,12 +60,27 @@ def kw_key(kw):
         'elem' if kw['mode'] == 'elemental' else
         ('effective' if kw['use_effective_volume'] else 'mean'))
     return f"{kw['mode']}/hop{kw['n_hop']}/vol-{vol}/{'moment' if kw['moment_matrix'] else 'plain'}" \
-           f"/{kw.get('kernel') or 'none'}"
+           f"/{kw.get('kernel') or 'none'}" + ('/order1' if kw.get('order1_only') else '')
+
+
+def eff_mesh(mesh, kw):
+    """the mesh the operator is built on: reduced to first-order nodes in
+    nodal mode with order1_only=True"""
+    if kw.get('order1_only') and kw['mode'] == 'nodal' and mesh.get('k1'):
+        if '_order1_view' not in mesh:
+            mesh['_order1_view'] = G.reduce_order1(mesh)
+        return mesh['_order1_view']
+    return mesh
+
+
+def n_vertices(mesh, kw):
+    m = eff_mesh(mesh, kw)
+    return len(m['node_ids']) if kw['mode'] == 'nodal' else len(m['conn'])
 
 
 def tol_for(mesh, kw):
     # femio's hex volume kernel returns float32 values
-    if mesh['etype'] == 'hex' and kw['consider_volume']:
+    if mesh['etype'] in ('hex', 'mix') and kw['consider_volume']:
         return TOL32
     return TOL64
 
@@ -132,9 +147,9 @@ def exact_volumes(mesh):
     out = []
     for e in inc:
         p = [P[k] for k in e]
-        if mesh['etype'] == 'tet':
+        if mesh['etype'] in ('tet', 'tet2') or (mesh['etype'] == 'mix' and len(e) == 4):
             out.append(Fr(G.det3(G.sub(p[1], p[0]), G.sub(p[2], p[0]), G.sub(p[3], p[0])), 6))
-        elif mesh['etype'] == 'hex' and hex_is_parallelepiped(p):
+        elif mesh['etype'] in ('hex', 'mix') and len(e) == 8 and hex_is_parallelepiped(p):
             out.append(Fr(G.det3(G.sub(p[1], p[0]), G.sub(p[3], p[0]), G.sub(p[4], p[0]))))
         else:
             return None
@@ -145,7 +160,7 @@ def cost_estimate(mesh, kw, cache):
     """~ seconds of vm_compute for the correspondence of one case"""
     key = (id(mesh), kw['mode'], kw['n_hop'])
     if key not in cache:
-        inc, nb, P = G.neighbourhoods(mesh, kw['mode'], kw['n_hop'])
+        inc, nb, P = G.neighbourhoods(eff_mesh(mesh, kw), kw['mode'], kw['n_hop'])
         cache[key] = (sum(len(x) ** 3 for x in nb), sum(len(x) for x in nb),
                       sum(len(x) ** 2 for x in nb))
     c3, c1, c2 = cache[key]
@@ -211,7 +226,7 @@ def plan(ctx):
                 if kw['moment_matrix']:
                     wk = ('well', mid, kw['mode'], kw['n_hop'])
                     if wk not in cache:
-                        inc, nb, P = G.neighbourhoods(mesh, kw['mode'], kw['n_hop'])
+                        inc, nb, P = G.neighbourhoods(eff_mesh(mesh, kw), kw['mode'], kw['n_hop'])
                         cache[wk] = well_conditioned(nb, P)
                     if not cache[wk]:
                         continue   # some neighbourhood does not span space (with margin)
@@ -240,7 +255,7 @@ def plan(ctx):
                     kw['mode'] = 'nodal'
                     kw['use_effective_volume'] = True
                 if kw['moment_matrix']:
-                    inc, nb, P = G.neighbourhoods(mesh, kw['mode'], kw['n_hop'])
+                    inc, nb, P = G.neighbourhoods(eff_mesh(mesh, kw), kw['mode'], kw['n_hop'])
                     if not well_conditioned(nb, P):
                         kw['moment_matrix'] = False
                 t = rng.choice([0.5, 1.0, 3.0])
@@ -252,10 +267,78 @@ def plan(ctx):
     return {m: meshes[m] for m in mids if m in used}, cases
 
 
+def plan_extended(ctx):
+    """second-order (tet2, with and without order1_only) and mixed hex+tet
+    meshes (nodal mode; femio's elemental mode raises on mixed meshes with
+    numpy >= 1.24: convert_nodal2elemental builds a ragged array)"""
+    rng = ctx.rng
+    quick = ctx.tier == 'quick'
+    cap = 6.0 if quick else 30.0
+    meshes, cases, cache = {}, [], {}
+
+    def kwm(mode, hop, cv, eff, mm, **k):
+        d = dict(mode=mode, n_hop=hop, consider_volume=cv, use_effective_volume=eff, moment_matrix=mm)
+        d.update(k)
+        return d
+
+    def place(mid, kw, **extra):
+        mesh = meshes[mid]
+        inc, nb, P = G.neighbourhoods(eff_mesh(mesh, kw), kw['mode'], kw['n_hop'])
+        if min(len(x) for x in nb) < 1:
+            return
+        if kw['moment_matrix'] and not well_conditioned(nb, P):
+            kw = dict(kw, moment_matrix=False)
+        est = cost_estimate(eff_mesh(mesh, kw), kw, cache)
+        if kw.get('kernel') is None and est > cap:
+            return
+        cases.append(dict({'mesh': mid, 'kw': kw, 'kernel': kw.get('kernel'), 'est': est}, **extra))
+
+    tet_dims = [(2, 2, 2), (2, 2, 3), (3, 2, 2)] * (1 if quick else 4)
+    for k, dims in enumerate(tet_dims):
+        base = G.gen_mesh(rng, 'tet', tuple(rng.sample(dims, 3)), spacing_max=2, jitter=rng.random() < 0.6,
+                          map_name=rng.choice(list(G.MAPS)), id_mode=rng.choice(['sparse', 'large']),
+                          shuffle=True)
+        mesh = G.to_tet2(rng, base)
+        mesh['exact_vol'] = exact_volumes(mesh)
+        mid = f'q{k}'
+        meshes[mid] = mesh
+        # order1_only=True: the operator lives on the corner nodes
+        for kw in [kwm('nodal', 1, False, True, True, order1_only=True),
+                   kwm('nodal', rng.choice([2, 3]), True, True, rng.random() < 0.5, order1_only=True),
+                   kwm('nodal', 1, True, True, True, order1_only=True),
+                   kwm('elemental', 1, True, True, False, order1_only=True)]:
+            place(mid, kw, with_conv=rng.random() < 0.6)
+        # order1_only=True with mean volumes (see known_findings.d/C15.json)
+        place(mid, kwm('nodal', 1, True, False, False, order1_only=True), with_conv=False)
+        # all ten nodes of each element are vertices
+        for kw in [kwm('nodal', 1, False, True, False, order1_only=False),
+                   kwm('nodal', 1, True, rng.random() < 0.5, True, order1_only=False),
+                   kwm('elemental', 1, False, True, True, order1_only=False)]:
+            place(mid, kw, with_conv=rng.random() < 0.3)
+        diam2 = max(sum((a - b) ** 2 for a, b in zip(p, mesh['xyz'][0])) for p in mesh['xyz'])
+        place(mid, kwm('nodal', 1, True, True, True, order1_only=True, kernel='gauss',
+                       alpha=2.0 / max(diam2, 1)), with_conv=True)
+    mix_dims = [(2, 2, 3), (3, 2, 3), (2, 3, 3)] * (1 if quick else 4)
+    for k, dims in enumerate(mix_dims):
+        mesh = G.gen_mixed(rng, tuple(rng.sample(dims, 3)), map_name=rng.choice(list(G.MAPS)),
+                           id_mode=rng.choice(['sparse', 'large']))
+        mesh['exact_vol'] = exact_volumes(mesh)
+        mid = f'x{k}'
+        meshes[mid] = mesh
+        for kw in [kwm('nodal', 1, False, True, True), kwm('nodal', 1, True, True, False),
+                   kwm('nodal', 2, True, False, True), kwm('nodal', rng.choice([2, 3]), True, True, True)]:
+            place(mid, kw, with_conv=rng.random() < 0.5)
+        diam2 = max(sum((a - b) ** 2 for a, b in zip(p, mesh['xyz'][0])) for p in mesh['xyz'])
+        place(mid, kwm('nodal', 1, True, True, True, kernel='exp', alpha=1.0 / max(diam2, 1) ** 0.5),
+              with_conv=True)
+    used = {c['mesh'] for c in cases}
+    return {m: v for m, v in meshes.items() if m in used}, cases
+
+
 def run_impl(ctx, meshes, jobs, tag='impl'):
     out = ctx.scratch / f'{tag}_out.json'
-    keys = ('etype', 'node_ids', 'xyz', 'elem_ids', 'conn')
-    spec = {'out': str(out), 'meshes': {m: {k: v[k] for k in keys} for m, v in meshes.items()},
+    keys = ('etype', 'node_ids', 'xyz', 'elem_ids', 'conn', 'blocks', 'k1')
+    spec = {'out': str(out), 'meshes': {m: {k: v[k] for k in keys if k in v} for m, v in meshes.items()},
             'jobs': jobs}
     r = subprocess.run([lib.PY, str(lib.VERIF / 'harness' / 'c15_impl.py')],
                        input=json.dumps(spec), text=True, capture_output=True,
@@ -304,7 +387,7 @@ def oracle_case(mesh, case, mats, conv, P, well):
                 break
     # (3) convenience function = matrices applied by hand
     if conv is not None:
-        data = case['data']
+        data = case.get('data_eff', case['data'])
         nfeat = len(data[0])
         dmax = max(abs(x) for r in data for x in r)
         shape = conv['shape']
@@ -362,14 +445,18 @@ def coq_file_for(batch, meshes, vols):
         if rows3 is not None:
             impl = lib.coq_list([lib.coq_list([lib.coq_list([f'({j}%uint63, {enc(x)})' for j, x in row])
                                                for row in rows]) for rows in rows3])
-            txt.append(f'Definition cm_{cid} := corr_matrices {q(tol)} {coq_opts(c["kw"])} '
-                       f'mesh_{mid} evol_{mid} {impl}.')
+            if c['kw'].get('order1_only'):
+                txt.append(f'Definition cm_{cid} := corr_matrices_x {q(tol)} true {coq_nat(meshes[mid]["k1"])} '
+                           f'{coq_opts(c["kw"])} mesh_{mid} evol_{mid} {impl}.')
+            else:
+                txt.append(f'Definition cm_{cid} := corr_matrices {q(tol)} {coq_opts(c["kw"])} '
+                           f'mesh_{mid} evol_{mid} {impl}.')
             txt.append(f'Goal True. idtac "@@ mat {cid}". Abort.')
             txt.append(f'Time Eval vm_compute in cm_{cid}.')
         if conv is not None:
             data = lib.coq_list([lib.coq_list([q(x) for x in r]) for r in c['data']])
             nfeat = len(c['data'][0])
-            n = len(c['data'])
+            n = c['n']
             gr = [fr_hex(h) for h in conv['grad']]
             shape = conv['shape']
             if shape == [n, 3, nfeat]:
@@ -378,8 +465,12 @@ def coq_file_for(batch, meshes, vols):
                                                  for a in range(3)]) for i in range(n)])
             else:
                 g3 = '[]'
-            txt.append(f'Definition cc_{cid} := conv_agree {q(tol)} {coq_opts(c["kw"])} '
-                       f'mesh_{mid} evol_{mid} {coq_nat(nfeat)} {data} {g3}.')
+            if c['kw'].get('order1_only'):
+                txt.append(f'Definition cc_{cid} := conv_agree_x {q(tol)} true {coq_nat(meshes[mid]["k1"])} '
+                           f'{coq_opts(c["kw"])} mesh_{mid} evol_{mid} {coq_nat(nfeat)} {data} {g3}.')
+            else:
+                txt.append(f'Definition cc_{cid} := conv_agree {q(tol)} {coq_opts(c["kw"])} '
+                           f'mesh_{mid} evol_{mid} {coq_nat(nfeat)} {data} {g3}.')
             txt.append(f'Goal True. idtac "@@ conv {cid}". Abort.')
             txt.append(f'Time Eval vm_compute in cc_{cid}.')
     txt.append('Goal True. idtac "@@ end". Abort.')
@@ -586,7 +677,7 @@ def prepare_cases(ctx, meshes, cases):
     for cid, c in enumerate(cases):
         c['id'] = cid
         mesh = meshes[c['mesh']]
-        n = len(mesh['node_ids']) if c['kw']['mode'] == 'nodal' else len(mesh['conn'])
+        n = n_vertices(mesh, c['kw'])
         c['n'] = n
         kw = dict(c['kw'])
         c['job_mat'] = len(jobs)
@@ -595,9 +686,14 @@ def prepare_cases(ctx, meshes, cases):
         c['with_conv'] = c.get('with_conv', rng.random() < 0.5 and
                                (c['kw'].get('kernel') is not None or c.get('est', 0.0) <= 1.2))
         if c['with_conv']:
+            order1_nodal = bool(c['kw'].get('order1_only')) and c['kw']['mode'] == 'nodal' and mesh.get('k1')
             if 'data' not in c:
                 nfeat = rng.randint(1, 3)
-                c['data'] = [[rng.randint(-9, 9) for _ in range(nfeat)] for _ in range(n)]
+                # the nodal convenience function takes data for ALL nodes and filters itself
+                n_data = len(mesh['node_ids']) if order1_nodal else n
+                c['data'] = [[rng.randint(-9, 9) for _ in range(nfeat)] for _ in range(n_data)]
+            if order1_nodal:
+                c['data_eff'] = [c['data'][k] for k in eff_mesh(mesh, c['kw'])['order1_keep']]
             c['job_conv'] = len(jobs)
             jobs.append({'id': len(jobs), 'mesh': c['mesh'], 'kind': 'conv', 'kw': kw,
                          'data': c['data']})
@@ -616,10 +712,14 @@ def prepare_cases(ctx, meshes, cases):
                     continue
                 raise RuntimeError('calculate_element_volumes failed on a generated mesh: ' + r['error'])
             impl = [fr_hex(h) for h in r['volumes']]
+            if r.get('elem_ids') and sorted(r['elem_ids']) == sorted(mesh['elem_ids']) \
+                    and len(impl) == len(mesh['elem_ids']):
+                by_id = dict(zip(r['elem_ids'], impl))          # femio's element order -> ours
+                impl = [by_id[i] for i in mesh['elem_ids']]
             if 'exact_vol' not in mesh:
                 mesh['exact_vol'] = exact_volumes(mesh)
             ex = mesh['exact_vol']
-            rel = Fr(1, 2 ** 45) if mesh['etype'] == 'tet' else Fr(1, 2 ** 20)
+            rel = Fr(1, 2 ** 45) if mesh['etype'] in ('tet', 'tet2') else Fr(1, 2 ** 20)
             if ex is not None and len(ex) == len(impl) and \
                     all(abs(a - b) <= rel * abs(a) for a, b in zip(ex, impl)):
                 vols[j['mid']] = ex
@@ -672,7 +772,8 @@ def describe(mesh, c):
 
 
 def replay_case(mesh, c, vols=None):
-    out = {'mesh': {k: mesh[k] for k in ('etype', 'node_ids', 'xyz', 'elem_ids', 'conn')},
+    out = {'mesh': {k: mesh[k] for k in ('etype', 'node_ids', 'xyz', 'elem_ids', 'conn', 'blocks', 'k1')
+                    if k in mesh},
            'kw': c['kw'], 'data': c.get('data'), 'affine': c.get('affine')}
     if c.get('sequence'):
         k = c['failing_step']
@@ -686,7 +787,13 @@ def replay_case(mesh, c, vols=None):
 
 
 def signature(mesh, c, check):
-    return {'check': check, 'options': kw_key(c['kw']), 'etype': mesh['etype']}
+    kw = c['kw']
+    sig = {'check': check, 'options': kw_key(kw), 'etype': mesh['etype']}
+    if kw.get('order1_only'):
+        sig['order1_only'] = True
+    if c.get('_error'):
+        sig['error'] = c['_error'].split(':')[0]
+    return sig
 
 
 def main(ctx):
@@ -757,6 +864,10 @@ def main(ctx):
     gm, gc = plan(ctx)
     meshes.update(gm)
     cases += gc
+    xm, xc = plan_extended(ctx)
+    meshes.update(xm)
+    cases += xc
+    ctx.notes['extended_stream_cases'] = len(xc)
     ctx.notes['corpus_cases'] = n_corpus
     # small malformed stream (kept apart): an element refers to a node id that
     # does not exist; the model rejects (incidence = None), femio must raise
@@ -792,7 +903,7 @@ def main(ctx):
             else:
                 batch_items.append((c['id'], c, [[], [], []], None))
             continue
-        inc, nb, P = G.neighbourhoods(mesh, kw['mode'], kw['n_hop'])
+        inc, nb, P = G.neighbourhoods(eff_mesh(mesh, kw), kw['mode'], kw['n_hop'])
         well = well_conditioned(nb, P) if kw['moment_matrix'] else True
         r = res[c['job_mat']]
         rc = res[c['job_conv']] if c['with_conv'] else None
@@ -811,6 +922,7 @@ def main(ctx):
             continue
         if 'error' in r or (rc is not None and 'error' in rc):
             err = r.get('error') or rc.get('error')
+            c['_error'] = err
             failures.append((c['n'], 'impl-violation', mesh, c,
                              'matrices are returned', {'error': err},
                              'C15_grad_const_zero (implementation raised on a well-formed mesh)', 'raised'))
@@ -981,7 +1093,7 @@ def replay(path):
         return 1 if bad else 0
     res, vols = prepare_cases(ctx, meshes, [c])
     kw = c['kw']
-    inc, nb, P = G.neighbourhoods(mesh, kw['mode'], kw['n_hop'])
+    inc, nb, P = G.neighbourhoods(eff_mesh(mesh, kw), kw['mode'], kw['n_hop'])
     well = well_conditioned(nb, P) if kw['moment_matrix'] else True
     r = res[c['job_mat']]
     rc = res[c['job_conv']] if c['with_conv'] else None
